@@ -138,6 +138,10 @@ CORPUS = [
     # only when it has several statements
     '?start: stmt+\nstmt: NAME "=" value ";"\nvalue: NUM | "-" NUM -> _negative | NAME "." NAME -> _path\n' + EXTRA_TERMS + '%ignore " "\n',
     'start: entry+\nentry: key "=" val ";"\nkey: NAME\nval: NUM -> _num | "[" val ("," val)* "]" -> _list | NAME\n' + EXTRA_TERMS + '%ignore " "\n',
+    # a terminal whose matches differ in whether their first character continues an identifier ("-7" / "42") right after a word: whether a blank is needed
+    # depends on the texts, not on the pair of terminals
+    'start: stmt+\nstmt: "set" NAME SNUM ";" | "add" SNUM NAME ";"\nSNUM: /-?[0-9]+/\n' + EXTRA_TERMS + '%ignore " "\n',
+    'start: stmt+\nstmt: NAME OP NAME ";"\nOP: "+" | "and" | "-"\n' + EXTRA_TERMS + '%ignore " "\n',
 ]
 
 
@@ -157,7 +161,7 @@ def _corpus_case(args):
         def expand(sym, depth):
             if sym.is_term:
                 t = [t for t in p.terminals if t.name == sym.name][0]
-                out.append(t.pattern.value if t.pattern.type == 'str' else rng.choice(['7', '42'] if '0-9' in t.pattern.value else ['q', 'foo', 'b']))
+                out.append(t.pattern.value if t.pattern.type == 'str' else rng.choice(['-7', '42', '-1', '3'] if '-?' in t.pattern.value else ['+', 'and', '-'] if t.name == 'OP' else ['7', '42'] if '0-9' in t.pattern.value else ['q', 'foo', 'b']))
                 return
             rs = by[sym.name]
             r = rng.choice(rs) if depth < 5 and len(out) < 40 else min(rs, key=lambda r: len(r.expansion))
